@@ -120,7 +120,20 @@ def make_parser(tbl: dict):
         "parse_postfix": parse_postfix,
         "parse_infix": parse_infix,
     }
-    return type("TableParser", (PrattParser,), ns)()
+    # every other table is declared on a class derived from another PrattParser subclass that declares the same operators
+    # the other way round (precedences mirrored, associativity flipped): the tables that count are the ones the class itself declares
+    base = PrattParser
+    if (len(tbl["inf"]) + len(tbl["pre"]) + len(tbl["post"]) + sum(int(p) for p, _ in tbl["inf"].values())) % 2 == 1:
+        allp = [int(p) for p in tbl["pre"].values()] + [int(p) for p in tbl["post"].values()] + [int(p) for p, _ in tbl["inf"].values()]
+        top = (max(allp) if allp else 0) + 1
+        decoy = {
+            "PREFIX_OPS": {k: top - int(p) for k, p in tbl["pre"].items()},
+            "POSTFIX_OPS": {k: top - int(p) for k, p in tbl["post"].items()},
+            "INFIX_OPS": {k: (top - int(p), not bool(ra)) for k, (p, ra) in tbl["inf"].items()},
+            "parse_primary": parse_primary, "parse_prefix": parse_prefix, "parse_postfix": parse_postfix, "parse_infix": parse_infix,
+        }
+        base = type("DecoyParser", (PrattParser,), decoy)
+    return type("TableParser", (base,), ns)()
 
 
 CASE_TIMEOUT_S = 2.0
